@@ -5,7 +5,7 @@ Driver handlers for property C19 (ANSI decoder / truecolor encoder / FileProxy).
 
 Wire formats
 * string  : space separated decimal code points ("" = empty)
-* flags   : seven characters 0/1: intRaises flushRaw emptyIgnored resetDropsLink offSingle crErases sgrLazy   (fields of `Ansi.Cfg`; `sv` is `StyleVariant.fixed`: only
+* flags   : eight characters 0/1: intRaises flushRaw emptyIgnored resetDropsLink offSingle crErases sgrLazy oscStOnly   (fields of `Ansi.Cfg`; `sv` is `StyleVariant.fixed`: only
             the five compared fields of a style are observed, which no `StyleVariant` flag changes)
 * optstr  : `-` (None) or `=` string
 * color   : `-` (None) or `name/type/number/triplet`, number `-`|n, triplet `-`|r.g.b
@@ -25,7 +25,7 @@ open RichModel RichModel.Proto RichModel.Ansi
 
 def decFlags (s : String) : Option Ansi.Cfg :=
   match s.toList.map (· == '1') with
-  | [a, b, c, d, e, f, g] => some ⟨a, b, c, d, e, f, g⟩
+  | [a, b, c, d, e, f, g, h] => some ⟨a, b, c, d, e, f, g, h⟩
   | _ => none
 
 def decOptS (s : String) : Option (Option (List Char)) :=
@@ -181,7 +181,7 @@ def handlers : List (String × (List String → String)) := [
   ("ansi_tokenize", fun a => match a with
     | [fl, s] => match decFlags fl with
       | some cfg =>
-        let toks := tokenize cfg.sgrLazy (decStr s)
+        let toks := tokenize cfg.sgrLazy (!cfg.oscStOnly) (decStr s)
         toString toks.length ++ ":" ++ ",".intercalate (toks.map encToken)
       | none => "bad-args"
     | _ => "bad-args"),
